@@ -58,9 +58,18 @@ type spec struct {
 	// static paths of maps whose key set is determined by other fields
 	// (only values are mutated).
 	valueOnlyMaps map[string]bool
+	// static paths whose mutation leaves the domain (another field depends on
+	// them): the mutant must still encode differently but need not round-trip.
+	dependent map[string]bool
 	// domain fix-up applied after generation (never after mutation).
-	fix func(obj interface{})
+	fix func(t *rapid.T, obj interface{})
+	// how many objects of the type one test case generates
+	weight int
 }
+
+// typeFix holds domain fix-ups that apply to every value of a struct type,
+// wherever it is nested (run right after the value is filled).
+var typeFix = map[reflect.Type]func(g *genCtx, v reflect.Value){}
 
 // field returns a settable handle of field i, exported or not.
 func field(v reflect.Value, i int) reflect.Value {
@@ -370,6 +379,9 @@ func (g *genCtx) fill(v reflect.Value, path string, depth int) {
 		for i := 0; i < t.NumField(); i++ {
 			g.fill(field(v, i), path+"."+t.Field(i).Name, depth)
 		}
+		if f := typeFix[t]; f != nil {
+			f(g, v)
+		}
 	default:
 		panic(fmt.Sprintf("c18 engine: field %s of kind %s is neither generated nor listed as excluded", path, t.Kind()))
 	}
@@ -409,7 +421,7 @@ func generate(t *rapid.T, sp *spec) interface{} {
 	obj := reflect.New(sp.typ)
 	g.fill(obj.Elem(), "", 0)
 	if sp.fix != nil {
-		sp.fix(obj.Interface())
+		sp.fix(t, obj.Interface())
 	}
 	return obj.Interface()
 }
@@ -585,6 +597,25 @@ func semDiff(sp *spec, a, b reflect.Value, path, dyn string) string {
 			}
 		}
 	case reflect.Map:
+		if sp.valueOnlyMaps[path] {
+			// lookup table read with m[k]: a missing key and a zero value are the same
+			zero := reflect.Zero(t.Elem())
+			for _, m := range []reflect.Value{a, b} {
+				for _, k := range sortedKeys(m) {
+					av, bv := a.MapIndex(k), b.MapIndex(k)
+					if !av.IsValid() {
+						av = zero
+					}
+					if !bv.IsValid() {
+						bv = zero
+					}
+					if d := semDiff(sp, av, bv, path+"{}", fmt.Sprintf("%s{%v}", dyn, k.Interface())); d != "" {
+						return d
+					}
+				}
+			}
+			return ""
+		}
 		if a.Len() != b.Len() {
 			return fmt.Sprintf("%s: %d keys vs %d", dyn, a.Len(), b.Len())
 		}
